@@ -120,6 +120,7 @@ def generate(ctx):
     ds = common.docs(ctx, ctx.scale(700, 30000), finite=False)
     ctx.pairs = []
     ctx.mixed = []
+    ctx.prefixed = []
     for t in (b'nul', b'[1,', b'tru e', b'@@', b'{"a"}'):
         ctx.add('convert_to_comparable %s' % gen.hexarg(t), kind='invalid-text')    # INVALID_LEVEL branch (tie only)
         ctx.add('convert_to_comparable@c0ffee %s' % gen.hexarg(t), kind='invalid-text')
@@ -137,6 +138,11 @@ def generate(ctx):
             if not ta.startswith('20') and not tb.startswith('20'):
                 ctx.mixed.append((a, b, ids, (ctx.add('convert_to_comparable %s' % ta).id, ctx.add('convert_to_comparable %s' % tb).id,
                                               ctx.add('compare %s %s' % (ea, tb)).id, ctx.add('compare %s %s' % (ta, eb)).id)))
+                # composite sort keys: the key is APPENDED to a buffer that already holds a prefix (a tenant id, the key of an
+                # earlier column), for a text as for an encoding
+                pre = r.choice([b'tenant-42:', b'\x00', gen.enc(b)])
+                ctx.prefixed.append((pre, ids[0], ctx.add('convert_to_comparable@%s %s' % (pre.hex(), ea)).id,
+                                     ctx.add('convert_to_comparable@%s %s' % (pre.hex(), ta)).id))
     # strings / keys of 255 .. 65536 bytes and containers of 255 .. 1000 members against copies that differ at the very end
     # (sizes.py; second review H2): the keys must order them as compare does (all of them are inside the proved class)
     for lab, v in sizes.string_docs() + sizes.container_docs():
@@ -230,6 +236,14 @@ def judge(ctx):
             ctx.violate('the judge\'s mirror of key_safe_doc disagrees with the extracted CmpKey.key_safe_doc',
                         case=gen.vtext(docs[h]), expected_by_model=out.get('k%d' % i, 'missing'), observed=want)
     ctx.count('documents_classified_by_the_extracted_key_safe_doc', None, len(keys))
+    for pre, plain, pb, pt in ctx.prefixed:
+        k, kb, kt = impl.get(plain, 'missing'), impl.get(pb, 'missing'), impl.get(pt, 'missing')
+        ctx.count('keys_appended_to_a_prefilled_buffer')
+        if k.startswith('ok '):
+            want = 'ok ' + gen.hexarg(pre + gen.unhexarg(k[3:]))
+            if kb != want or kt != want:
+                ctx.violate('a comparable key appended to a buffer that already holds bytes is not prefix ++ key', case=ctx.cases[int(pt[1:]) - 1].line[:400],
+                            expected=want[:300], observed={'encoding': kb[:300], 'text': kt[:300]})
     for a, b, ids, tids in ctx.mixed:
         ka, kb, c = [impl.get(i, 'missing') for i in ids]
         kta, ktb, c_bt, c_tb = [impl.get(i, 'missing') for i in tids]
